@@ -1,6 +1,7 @@
 package main
 
 import (
+	"strings"
 	"fmt"
 	"go/types"
 
@@ -326,6 +327,62 @@ func (in *Interp) renderValue(v Value, t types.Type, m Model) string {
 		return fmt.Sprint(x)
 	case nil:
 		return "<nil>"
+	case Iface:
+		if x.t == nil {
+			return "<nil>"
+		}
+		return in.renderValue(x.v, x.t, m)
+	case Slice:
+		// as fmt.Sprint renders a slice: elements separated by blanks, strings unquoted
+		var et types.Type
+		if t != nil {
+			if st, ok := t.Underlying().(*types.Slice); ok {
+				et = st.Elem()
+			}
+		}
+		parts := make([]string, x.len)
+		for i := 0; i < x.len; i++ {
+			parts[i] = in.renderInner(x.at(i).load(), et, m)
+		}
+		return "[" + strings.Join(parts, " ") + "]"
+	case *Array:
+		var et types.Type
+		if t != nil {
+			if at, ok := t.Underlying().(*types.Array); ok {
+				et = at.Elem()
+			}
+		}
+		parts := make([]string, len(x.e))
+		for i, e := range x.e {
+			parts[i] = in.renderInner(e, et, m)
+		}
+		return "[" + strings.Join(parts, " ") + "]"
+	case *Struct:
+		st, _ := t.Underlying().(*types.Struct)
+		parts := make([]string, len(x.f))
+		for i, f := range x.f {
+			var ft types.Type
+			if st != nil {
+				ft = st.Field(i).Type()
+			}
+			parts[i] = in.renderInner(f, ft, m)
+		}
+		return "{" + strings.Join(parts, " ") + "}"
 	}
 	return fmt.Sprintf("<%T>", v)
+}
+
+// renderInner: an element inside a composite (fmt prints strings there without quotes)
+func (in *Interp) renderInner(v Value, t types.Type, m Model) string {
+	if i, ok := v.(Iface); ok {
+		if i.t == nil {
+			return "<nil>"
+		}
+		v, t = i.v, i.t
+	}
+	switch x := v.(type) {
+	case string, *SStr, *FD:
+		return evalStr(x, m)
+	}
+	return in.renderValue(v, t, m)
 }
